@@ -172,7 +172,7 @@ def _group_of(src):
 
 def corpus(tier):
     """[(group name, properties, [programs])]: every program at -O0 (C01, C15) and at -O1 (C02)."""
-    from . import u_condex, u_cond16, u_arithm, u_assign, u_shift, u_condval, u_gencond, u_if, u_loops, u_condtail, u_switch, u_callonce, u_sign, u_subscript, u_callframe
+    from . import u_condex, u_cond16, u_arithm, u_assign, u_shift, u_condval, u_gencond, u_if, u_loops, u_condtail, u_switch, u_callonce, u_sign, u_subscript, u_callframe, u_assignarm
     groups = {}
     for mod in (u_condex, u_cond16, u_arithm, u_shift):
         for c in mod.candidates(None):
@@ -181,7 +181,7 @@ def corpus(tier):
         groups.setdefault("logical-conditions", []).append(c)
     for c in u_condval.candidates(None):
         groups.setdefault("cond-value", []).append(c)
-    for mod, gname in ((u_if, "if-forms"), (u_loops, "loop-contract-candidates"), (u_condtail, "cond-tail"), (u_switch, "switch-forms"), (u_callonce, "call-in-16bit-context"), (u_sign, "declared-signedness"), (u_subscript, "element-access"), (u_callframe, "call-frame")):
+    for mod, gname in ((u_if, "if-forms"), (u_loops, "loop-contract-candidates"), (u_condtail, "cond-tail"), (u_switch, "switch-forms"), (u_callonce, "call-in-16bit-context"), (u_sign, "declared-signedness"), (u_subscript, "element-access"), (u_callframe, "call-frame"), (u_assignarm, "assign-16bit-element")):
         for c in mod.candidates(None):
             if c.get("simulate") and not c.get("contract_only"):
                 groups.setdefault(gname, []).append(c)
